@@ -59,8 +59,50 @@ pub fn corpus() -> Vec<String> {
     walk(std::path::Path::new(&format!("{}/src", repo())), &mut out);
     walk(std::path::Path::new(&format!("{}/examples", repo())), &mut out);
     walk(std::path::Path::new(&format!("{}/tests", repo())), &mut out);
+    for d in EVERY_PARAMETER {
+        out.insert(d.to_string());
+    }
     out.into_iter().collect()
 }
+
+/// one definition per operator with every parameter of its gamut given (the definitions in the source
+/// that are not literal arguments of `.op(…)` are not found by the walk above)
+const EVERY_PARAMETER: [&str; 34] = [
+    "molodensky ellps_0=WGS84 ellps_1=intl dx=84.87 dy=96.49 dz=116.95",
+    "molodensky ellps_0=WGS84 ellps_1=intl dx=84.87 dy=96.49 dz=116.95 abridged",
+    "molodensky ellps=WGS84 da=-251 df=-1.41927e-05 dx=84.87 dy=96.49 dz=116.95",
+    "tmerc lat_0=49 lon_0=-2 k_0=0.9996012717 x_0=400000 y_0=-100000 ellps=airy",
+    "btmerc lat_0=49 lon_0=-2 k_0=0.9996012717 x_0=400000 y_0=-100000 ellps=airy",
+    "utm zone=32 south ellps=intl",
+    "butm zone=32 south ellps=intl",
+    "merc lat_ts=-56 lon_0=9 x_0=-1234.5 y_0=10000000 ellps=intl",
+    "merc lat_0=33 lon_0=-75.5 k_0=0.9999 x_0=500000 y_0=777.25 ellps=clrk66",
+    "webmerc ellps=WGS84",
+    "lcc lat_1=49.5 lat_2=44 lat_0=46.8 lon_0=3 k_0=0.99987742 x_0=700000 y_0=6600000 ellps=intl",
+    "omerc latc=4 lonc=115 alpha=53.31582047 gamma_c=53.13010236 k_0=0.99984 x_0=590476.87 y_0=442857.65 ellps=evrstSS",
+    "omerc latc=4 lonc=115 alpha=53.31582047 k_0=0.99984 x_0=590476.87 y_0=442857.65 ellps=evrstSS variant",
+    "somerc lat_0=46.95240555555556 lon_0=7.439583333333333 k_0=0.9999 x_0=2600000 y_0=1200000 ellps=bessel",
+    "laea lat_0=52 lon_0=10 x_0=4321000 y_0=3210000 ellps=GRS80",
+    "cart ellps=intl",
+    "geodesic ellps=intl reversible",
+    "latitude authalic ellps=bessel",
+    "latitude geocentric ellps=bessel",
+    "curvature azimuthal ellps=intl",
+    "curvature gaussian ellps=intl",
+    "gravity grs80 ellps=GRS80",
+    "permtide from=mean to=zero ellps=GRS80 k=0.3",
+    "unitconvert xy_in=deg xy_out=rad z_in=ft z_out=m",
+    "axisswap order=2,-1,3,4",
+    "adapt from=neuf_deg to=enuf_rad",
+    "helmert x=10 y=-3 z=2 rx=0.001 ry=0.002 rz=-0.003 s=0.01 dx=0.1 dy=0.2 dz=-0.1 drx=0.0001 dry=0.0002 drz=0.0003 ds=0.001 t_epoch=2010 t_obs=2020 convention=position_vector exact",
+    "helmert translation=1,2,3 rotation=1,2,3 velocity=0.1,0.2,0.3 angular_velocity=0.01,0.02,0.03 scale=0.5 scale_trend=0.01 t_epoch=2000 convention=coordinate_frame",
+    "gridshift grids=test.datum padding=0.5",
+    "deformation dt=10 grids=test.deformation ellps=GRS80 padding=0.5",
+    "deformation t_epoch=2000 raw grids=test.deformation ellps=GRS80",
+    "deflection grids=test.geoid ellps=GRS80 padding=0.5",
+    "stack push=1,2 | addone | stack roll=2,1 | stack pop=2,1",
+    "push v_1 v_2 | addone | pop v_2 v_1",
+];
 
 const VALUES: [&str; 84] = [
     "", "0", "-0", "1", "-1", "nan", "NaN", "inf", "-inf", "infinity", "1e400", "-1e400", "1e-400", "4.9e-324", "1.7976931348623157e308",
@@ -330,6 +372,55 @@ pub fn generate(g: &mut Gen, thorough: bool) {
                 let def = format!("{pre}stack {sub}={args}{post}");
                 let d = data(&mut g.rng, 3);
                 g.push(case("default", &[], &def, &d), "oracle-stack-arguments", true);
+            }
+        }
+    }
+    // every stack instruction at every depth of the stack it may find (empty, one, two, more), in a pipeline
+    // that goes on afterwards
+    for pre in ["", "stack push=1 | ", "push v_3 | ", "stack push=1,2 | ", "push v_1 v_2 v_3 | "] {
+        for ins in ["stack swap", "stack flip=1", "stack flip=1,2", "stack roll=2,1", "stack unroll=2,1", "stack roll=3,-2", "stack pop=1", "stack pop=1,2", "stack pop=1,2,3", "pop v_1", "pop v_1 v_2", "pop v_1 v_2 v_3 v_4", "stack push=1", "push v_4"] {
+            for post in ["", " | stack pop=1", " | addone | stack swap | stack pop=2,1", " | pop v_2"] {
+                let def = format!("{pre}{ins}{post}");
+                let d = data(&mut g.rng, 3);
+                g.push(case("default", &[], &def, &d), "oracle-stack-depths", true);
+                for dir in ["F", "I"] {
+                    g.push(super::op_line("default", &[], &[], &def, "apply", dir, &d), "model-stack-depths", true);
+                }
+            }
+        }
+    }
+    // every value of the library's own definitions given indirectly: as a default, as a look-up with a
+    // default, as a dangling look-up, as the argument of a macro
+    for def in &corpus {
+        if def.contains('$') || def.contains("proj=") || def.len() > 300 {
+            continue;
+        }
+        let tokens: Vec<&str> = def.split_whitespace().collect();
+        for (i, tok) in tokens.iter().enumerate() {
+            let Some((k, v)) = tok.split_once('=') else { continue };
+            if k.is_empty() || v.is_empty() || k.contains('|') || v.contains('|') || v.starts_with('(') {
+                continue;
+            }
+            for (form, res) in [
+                (format!("{k}=({v})"), vec![]),
+                (format!("{k}=$nosuch({v})"), vec![]),
+                (format!("{k}=$nosuch"), vec![]),
+                (format!("{k}=$gv_arg gv_arg={v}"), vec![]),
+            ] {
+                let mut t: Vec<String> = tokens.iter().map(|x| x.to_string()).collect();
+                t[i] = form;
+                let d = data(&mut g.rng, 2);
+                let kind = if def.contains("grids=") || def.contains(':') { "plain" } else { "default" };
+                g.push(case(kind, &res, &t.join(" "), &d), "oracle-indirect-values", true);
+            }
+            // through a macro: the step text of the body holds `$name`, the value comes from the caller
+            if !def.contains('|') && !def.contains(':') {
+                let mut t: Vec<String> = tokens.iter().map(|x| x.to_string()).collect();
+                t[i] = format!("{k}=$gv_arg");
+                let res = vec![("gv:ind".to_string(), t.join(" "))];
+                let d = data(&mut g.rng, 2);
+                g.push(case("default", &res, &format!("gv:ind gv_arg={v}"), &d), "oracle-indirect-values-macro", true);
+                g.push(case("default", &res, "gv:ind", &d), "oracle-indirect-values-macro", true);
             }
         }
     }
